@@ -107,11 +107,152 @@ def run(ctx):
         for ident, (b, kind, paths) in loop_fns.items():
             decide_loop(ctx, prog, b, kind, paths, ident)
         u8ord(ctx, prog)
+    macro_witnesses(ctx)
     ctx.floor("TAB-SCALAR", 60)
     ctx.floor("TAB-OPTION", 30)
     ctx.floor("LEX", 15)
     ctx.floor("TAB-EQLOOP", 14)
     ctx.floor("TAB-U8ORD", 4)
+
+
+# --------------------------------------------------------------- macros ----
+W16 = '''
+#![allow(unused, clippy::all)]
+use core::cmp::Ordering;
+use core::num::NonZeroU8;
+const fn key_cmp(a: &u8, b: &u8) -> Ordering { konst::const_cmp!(*a, *b) }
+const fn key_eq(a: &u8, b: &u8) -> bool { konst::const_eq!(*a, *b) }
+// const_cmp_for! / const_eq_for!, option arm, every comparator form
+pub fn cmp_w_for_opt(l: Option<u8>, r: Option<u8>) -> Ordering { konst::const_cmp_for!(option; l, r) }
+pub fn cmp_w_for_opt_key(l: Option<i16>, r: Option<i16>) -> Ordering { konst::const_cmp_for!(option; l, r, |x| *x) }
+pub fn cmp_w_for_opt_two(l: Option<u8>, r: Option<u8>) -> Ordering { konst::const_cmp_for!(option; l, r, |a, b| konst::const_cmp!(*a, *b)) }
+pub fn cmp_w_for_opt_path(l: Option<u8>, r: Option<u8>) -> Ordering { konst::const_cmp_for!(option; l, r, key_cmp) }
+pub fn eq_w_for_opt(l: Option<u8>, r: Option<u8>) -> bool { konst::const_eq_for!(option; l, r) }
+pub fn eq_w_for_opt_key(l: Option<i16>, r: Option<i16>) -> bool { konst::const_eq_for!(option; l, r, |x| *x) }
+pub fn eq_w_for_opt_two(l: Option<u8>, r: Option<u8>) -> bool { konst::const_eq_for!(option; l, r, |a, b| konst::const_eq!(*a, *b)) }
+pub fn eq_w_for_opt_path(l: Option<u8>, r: Option<u8>) -> bool { konst::const_eq_for!(option; l, r, key_eq) }
+// slice arm
+pub fn cmp_w_for_slice(l: &[u8], r: &[u8]) -> Ordering { konst::const_cmp_for!(slice; l, r) }
+pub fn cmp_w_for_slice_key(l: &[i16], r: &[i16]) -> Ordering { konst::const_cmp_for!(slice; l, r, |x| *x) }
+pub fn cmp_w_for_slice_two(l: &[u8], r: &[u8]) -> Ordering { konst::const_cmp_for!(slice; l, r, |a, b| konst::const_cmp!(*a, *b)) }
+pub fn cmp_w_for_slice_path(l: &[u8], r: &[u8]) -> Ordering { konst::const_cmp_for!(slice; l, r, key_cmp) }
+pub fn eq_w_for_slice(l: &[u8], r: &[u8]) -> bool { konst::const_eq_for!(slice; l, r) }
+pub fn eq_w_for_slice_key(l: &[i16], r: &[i16]) -> bool { konst::const_eq_for!(slice; l, r, |x| *x) }
+pub fn eq_w_for_slice_two(l: &[u8], r: &[u8]) -> bool { konst::const_eq_for!(slice; l, r, |a, b| konst::const_eq!(*a, *b)) }
+pub fn eq_w_for_slice_path(l: &[u8], r: &[u8]) -> bool { konst::const_eq_for!(slice; l, r, key_eq) }
+// const_cmp! / const_eq! coercion on the supported types
+pub fn cmp_w_u8(l: u8, r: u8) -> Ordering { konst::const_cmp!(l, r) }
+pub fn cmp_w_i64(l: i64, r: i64) -> Ordering { konst::const_cmp!(l, r) }
+pub fn cmp_w_bool(l: bool, r: bool) -> Ordering { konst::const_cmp!(l, r) }
+pub fn cmp_w_char(l: char, r: char) -> Ordering { konst::const_cmp!(l, r) }
+pub fn cmp_w_nonzero(l: NonZeroU8, r: NonZeroU8) -> Ordering { konst::const_cmp!(l, r) }
+pub fn cmp_w_opt_i32(l: Option<i32>, r: Option<i32>) -> Ordering { konst::const_cmp!(l, r) }
+pub fn cmp_w_opt_str(l: Option<&str>, r: Option<&str>) -> Ordering { konst::const_cmp!(l, r) }
+pub fn cmp_w_str(l: &str, r: &str) -> Ordering { konst::const_cmp!(l, r) }
+pub fn cmp_w_bytes(l: &[u8], r: &[u8]) -> Ordering { konst::const_cmp!(l, r) }
+pub fn cmp_w_ordering(l: Ordering, r: Ordering) -> Ordering { konst::const_cmp!(l, r) }
+pub fn eq_w_u8(l: u8, r: u8) -> bool { konst::const_eq!(l, r) }
+pub fn eq_w_i64(l: i64, r: i64) -> bool { konst::const_eq!(l, r) }
+pub fn eq_w_bool(l: bool, r: bool) -> bool { konst::const_eq!(l, r) }
+pub fn eq_w_char(l: char, r: char) -> bool { konst::const_eq!(l, r) }
+pub fn eq_w_nonzero(l: NonZeroU8, r: NonZeroU8) -> bool { konst::const_eq!(l, r) }
+pub fn eq_w_opt_i32(l: Option<i32>, r: Option<i32>) -> bool { konst::const_eq!(l, r) }
+pub fn eq_w_opt_str(l: Option<&str>, r: Option<&str>) -> bool { konst::const_eq!(l, r) }
+pub fn eq_w_str(l: &str, r: &str) -> bool { konst::const_eq!(l, r) }
+pub fn eq_w_bytes(l: &[u8], r: &[u8]) -> bool { konst::const_eq!(l, r) }
+pub fn eq_w_ordering(l: Ordering, r: Ordering) -> bool { konst::const_eq!(l, r) }
+pub fn eq_w_range(l: core::ops::Range<usize>, r: core::ops::Range<usize>) -> bool { konst::const_eq!(l, r) }
+// assertc_eq! / assertc_ne!: returns iff == / != holds, panics otherwise
+pub fn asserteq_w_u8(l: u8, r: u8) { konst::assertc_eq!(l, r) }
+pub fn assertne_w_u8(l: u8, r: u8) { konst::assertc_ne!(l, r) }
+pub fn asserteq_w_i32(l: i32, r: i32) { konst::assertc_eq!(l, r) }
+pub fn assertne_w_i32(l: i32, r: i32) { konst::assertc_ne!(l, r) }
+pub fn asserteq_w_char(l: char, r: char) { konst::assertc_eq!(l, r, "with a message") }
+pub fn assertne_w_char(l: char, r: char) { konst::assertc_ne!(l, r, "with a message") }
+'''
+
+
+def macro_witnesses(ctx):
+    """the comparison macros expanded in a witness crate: each witness function is decided by the same tables as
+    the crate's own cmp_*/eq_* functions (TAB-SCALAR / TAB-OPTION / DLG-CMP / LEX / TAB-LEX / TAB-EQLOOP); the assert macros
+    by TAB-ASSERT (returns exactly when the relation holds)"""
+    from .c19 import witness_program
+    prog, diag = witness_program(ctx, "w16", W16)
+    if prog is None:
+        ctx.violation("TAB-MACRO", "witness", "the comparison-macro witness crate does not compile:\n%s" % diag[-2500:])
+        return
+    n = 0
+    for b in prog.bodies:
+        if b.crate != "w16" or b.promoted is not None or b.kind != "Fn":
+            continue
+        last = b.key.split("::")[-1]
+        if last.startswith("cmp_w_") or last.startswith("eq_w_"):
+            kind = "cmp" if last.startswith("cmp_") else "eq"
+            ident = "FULL|macro|%s" % last
+            try:
+                paths = sym.split_bool_returns(sym.through_loops(b, prog, inline_all_loopfree=True, max_paths=3000))
+            except sym.TooManyPaths:
+                ctx.violation("TAB-MACRO", ident, "too many paths", b.file())
+                continue
+            if any(any(e[0] == "loop" for e in p.events) for p in paths) or b.loops():
+                decide_loop(ctx, prog, b, kind, paths, ident)
+            else:
+                decide_flat(ctx, prog, b, kind, paths, ident)
+            ctx.instance("TAB-MACRO", ident, sample={"witness": last})
+            n += 1
+        elif last.startswith("asserteq_w_") or last.startswith("assertne_w_"):
+            decide_assert(ctx, prog, b, last.startswith("asserteq"), "FULL|macro|%s" % last)
+            n += 1
+    ctx.floor("TAB-MACRO", 37)
+    ctx.floor("TAB-ASSERT", 6)
+
+
+def decide_assert(ctx, prog, b, want_eq, ident):
+    try:
+        paths = sym.through_loops(b, prog, inline_all_loopfree=True, max_paths=3000)
+    except sym.TooManyPaths:
+        ctx.violation("TAB-ASSERT", ident, "too many paths", b.file())
+        return
+    paths = [p for p in paths if p.kind in ("return", "panic")]
+    pts = points_of(paths)
+    left = [t for t in pts if mentions(t, 1) and not mentions(t, 2)]
+    right = [t for t in pts if mentions(t, 2) and not mentions(t, 1)]
+    discrs = []
+    for p in paths:
+        for c in p.conds:
+            if c[0] in ("is", "notin_variants") and c[1] not in discrs and c[1][0] != "call":
+                discrs.append(c[1])
+    if len(left) != 1 or len(right) != 1:
+        ctx.violation("TAB-ASSERT", ident, "cannot identify the two compared operands", b.file())
+        return
+    A, B = left[0], right[0]
+    ok_kind, bad_kind = "return", "panic"
+    optl = [d for d in discrs if mentions(d, 1) and not mentions(d, 2)]
+    optr = [d for d in discrs if mentions(d, 2) and not mentions(d, 1)]
+
+    def rows_for(pre, holds):
+        return Row(pre, None, kind=ok_kind if holds == want_eq else bad_kind)
+    rows = []
+    vdom = None
+    if optl and optr:
+        dl, dr = optl[0], optr[0]
+        vdom = {table.strip_gargs(dl): [0, 1], table.strip_gargs(dr): [0, 1]}
+        ss = [("is", dl, 1), ("is", dr, 1)]
+        rows = [rows_for(ss + [eq(A, B)], True), rows_for(ss + [ne(A, B)], False),
+                rows_for([("is", dl, 1), ("is", dr, 0)], False), rows_for([("is", dl, 0), ("is", dr, 1)], False),
+                rows_for([("is", dl, 0), ("is", dr, 0)], True)]
+    else:
+        rows = [rows_for([eq(A, B)], True), rows_for([ne(A, B)], False)]
+    for r, nm in zip(rows, ["l==r", "l!=r", "(Some,None)", "(None,Some)", "(None,None)"]):
+        r.name = nm
+    try:
+        mism, n, dec = table.compare(paths, rows, nonneg=False, variant_domain=vdom)
+    except table.Undecided as e:
+        ctx.violation("TAB-ASSERT", ident, "table undecided: %s" % e, b.file())
+        return
+    ctx.instance("TAB-ASSERT", ident, nontrivial=dec >= 2, sample={"witness": ident, "cases": n, "decided": dec})
+    for m in mism[:2]:
+        ctx.violation("TAB-ASSERT", ident + "|" + (m.row.name or "-"), "%s: %s" % (b.key.split("::")[-1], m), b.file())
 
 
 # ------------------------------------------------------------------ flat ----
@@ -260,6 +401,8 @@ def _root_call(t):
     while isinstance(t, tuple) and t and t[0] in ("field", "vfield", "discr", "cast"):
         t = t[1] if t[0] != "cast" else t[3]
     if isinstance(t, tuple) and t and t[0] == "call":
+        if t[1].endswith("U8Ordering::to_ordering") and len(t) == 4:
+            return _root_call(t[3]) or t      # Less/Equal/Greater mapping of the byte encoding: decided by TAB-U8ORD
         return t
     return None
 
@@ -520,6 +663,16 @@ def lex_rows(style, consts, elem):
                 Row([le(B, I), lt(B, A)], by("Greater"), name="right is a proper prefix")]
     ls, rs = style[1], style[2]
     la, lb = ("len", ls), ("len", rs)
+    ha, hb = ("cidx", ("deref", ls), 0, False), ("cidx", ("deref", rs), 0, False)
+    if elem in (eq(ha, hb), eq(hb, ha)):
+        # heads compared as primitives (the element comparison was inlined)
+        both = [le(Int(1), la), le(Int(1), lb)]
+        return [Row(both + [eq(ha, hb)], None, kind="back", name="heads equal: continue"),
+                Row(both + [lt(ha, hb)], by("Less"), name="heads differ: l<r"),
+                Row(both + [lt(hb, ha)], by("Greater"), name="heads differ: l>r"),
+                Row([lt(la, Int(1)), lt(lb, Int(1))], by("Equal"), name="both exhausted"),
+                Row([lt(la, Int(1)), le(Int(1), lb)], by("Less"), name="left exhausted first"),
+                Row([le(Int(1), la), lt(lb, Int(1))], by("Greater"), name="right exhausted first")]
     c = _root_call(elem[1])
     if c is None or len(c) != 5 or not (_mentions_L(c[3], ls) and not _mentions_L(c[3], rs) and _mentions_L(c[4], rs) and not _mentions_L(c[4], ls)):
         return [Row([], lambda path, case: "heads are not compared as inner(left head, right head): %s" % sym.show_atom(elem), kind="any", name="element test")]
